@@ -1,4 +1,5 @@
 import LJT.Proofs.SeqHuff
+import LJT.Proofs.ProgAC
 /-! # C03 - entropy coding and scan structure never change the coefficients
 
 Property theorems about `LJT.SeqHuff` (Model/SeqHuff.lean: the block coder of
@@ -64,6 +65,46 @@ theorem refinement_adds_one_bit_dc (c : Int) (j : Nat) : approxI c j = approxI c
 /-- ... and after the level-0 scan the coefficient is complete -/
 theorem approximation_complete (m : Nat) (c : Int) : approx m 0 = m ∧ approxI c 0 = c := by
   simp [approx, approxI]
+
+/-- the code the encoder model emits for a symbol under table `c` (`ProgHuff.acScanBytes`) -/
+def codeOf (c : CDerived) (s : Nat) : List Bool := (encode c s).getD []
+
+theorem codeOf_good (t : Tbl) (c : CDerived) (dd : DDerived)
+    (hc : mkCDerived false false t = some c) (hd : mkDDerived false false t = some dd)
+    (s : Nat) (h : (encode c s).isSome = true) : ProgAC.Good (codeOf c) (decode dd) s := by
+  intro rest
+  unfold codeOf
+  cases he : encode c s with
+  | none => simp [he] at h
+  | some bs => simpa using decode_encode false false t c dd hc hd s bs he rest
+
+/-- **A first-pass AC scan with end-of-band runs round-trips** (progressive mode, T.81 G.1.2.2;
+src/jcphuff.c `encode_mcu_AC_first` + `emit_eobrun`): for every sequence of blocks of a restart
+interval - bands of any length `L ≥ 1`, point-transformed coefficients of magnitude below 2^15, runs
+of all-zero bands of any length including the forced flush at 0x7FFF - every valid AC table that
+contains the symbols used, and whatever follows in the bit stream, the decoding procedure the
+independent reader runs block by block returns exactly the bands, ends with no pending run and
+leaves exactly what followed.  `ProgAC.firstEv` is the function `ProgHuff.acScanIntervals` calls
+and `ProgAC.evBits (codeOf c)` the bits `ProgHuff.acScanBytes` emits (tied byte-for-byte to
+libjpeg-turbo's files by the `progfile` operations); `ProgAC.firstDecBlock` is what `T81.acFirstBlock` runs. -/
+theorem ac_first_scan_roundtrip (t : Tbl) (c : CDerived) (dd : DDerived)
+    (hc : mkCDerived false false t = some c) (hd : mkDDerived false false t = some dd)
+    (L : Nat) (hL : 1 ≤ L) (blocks : List (List Int)) (hwf : ProgAC.WF L blocks)
+    (henc : ∀ s, ProgAC.Ev.sym s ∈ ProgAC.firstEv 0 blocks → (encode c s).isSome = true) (rest : List Bool) :
+    ProgAC.firstDecBlocks (decode dd) L blocks.length 0
+      (ProgAC.evBits (codeOf c) (ProgAC.firstEv 0 blocks) ++ rest) = .ok (blocks, 0, rest) :=
+  (ProgAC.first_blocks (codeOf c) (decode dd) L hL blocks hwf).1 rest
+    (fun s hs => codeOf_good t c dd hc hd s (henc s hs))
+
+/-- non-vacuity of the scan theorem: three bands of length 2 - one with a coefficient, then two
+all-zero ones coded as an EOB run - are well-formed and produce a non-trivial event stream -/
+example : ProgAC.WF 2 [[1, 0], [0, 0], [0, 0]] ∧
+    ProgAC.firstEv 0 [[1, 0], [0, 0], [0, 0]] = [.sym 1, .bits 1 1, .sym 16, .bits 1 1] := by
+  constructor
+  · intro b hb
+    simp at hb
+    rcases hb with rfl | rfl | rfl <;> decide
+  · decide
 
 /-- non-vacuity: a small valid AC table (EOB, a run-0 size-1 symbol and ZRL) meets the
 hypotheses of the theorems above, and a block with a coefficient is encodable with it -/
